@@ -95,6 +95,22 @@ func (w *World) specSort(name, pkg string) (Sort, types.Type) {
 			}
 		}
 	}
+	if strings.HasPrefix(name, "mapv[") {
+		depth := 0
+		for i := 4; i < len(name); i++ {
+			if name[i] == '[' {
+				depth++
+			} else if name[i] == ']' {
+				depth--
+				if depth == 0 {
+					k, _ := w.specSort(name[5:i], pkg)
+					v, _ := w.specSort(name[i+1:], pkg)
+					w.elemSorts[v] = true
+					return "(MapV " + k + " " + v + ")", nil
+				}
+			}
+		}
+	}
 	if strings.HasPrefix(name, "set[") {
 		k, _ := w.specSort(name[4:len(name)-1], pkg)
 		return "(Array " + k + " Bool)", nil
@@ -682,8 +698,52 @@ func (e *Env) call(x ECall) Val {
 		tn := exprString(x.Args[1])
 		s, gt := w.specSort(tn, e.pkg)
 		return Val{T: "(" + w.payFn(s) + " " + v.T + ")", S: s, G: gt}
+	case "mapval":
+		// mapval(m): the mathematical value (domain, values) of a Go map
+		v := e.tr(x.Args[0])
+		if v.G == nil || !isMap(v.G) {
+			e.fail("mapval needs a Go map")
+		}
+		m := v.G.Underlying().(*types.Map)
+		hv, k, vs := w.mapHeap(m)
+		return Val{T: "(select " + e.g.stateGet(e.st, hv) + " " + v.T + ")", S: "(MapV " + k + " " + vs + ")"}
+	case "mget", "mhas":
+		vs := args()
+		if len(vs) != 2 || !strings.HasPrefix(vs[0].S, "(MapV ") {
+			e.fail("%s(mapvalue, key)", x.Fn)
+		}
+		ks, es := splitArraySort("(Array " + vs[0].S[len("(MapV "):])
+		if vs[1].S != ks {
+			e.fail("%s: key sort %s, want %s", x.Fn, vs[1].S, ks)
+		}
+		if x.Fn == "mhas" {
+			return boolT("(select (map_dom " + vs[0].T + ") " + vs[1].T + ")")
+		}
+		return Val{T: "(" + e.g.mgetFn(ks, es) + " " + vs[0].T + " " + vs[1].T + ")", S: es}
+	case "store":
+		vs := args()
+		if len(vs) != 3 || !strings.HasPrefix(vs[0].S, "(Array ") {
+			e.fail("store(ghostmap, key, value)")
+		}
+		ks, es := splitArraySort(vs[0].S)
+		if vs[1].S != ks || vs[2].S != es {
+			e.fail("store: sorts %s,%s want %s,%s", vs[1].S, vs[2].S, ks, es)
+		}
+		return Val{T: "(store " + vs[0].T + " " + vs[1].T + " " + vs[2].T + ")", S: vs[0].S}
+	case "fresh":
+		// fresh(x): x was allocated by the call whose postcondition this is
+		v := e.tr(x.Args[0])
+		if e.old == nil {
+			e.fail("fresh() needs a pre-state")
+		}
+		w.heapVars["$wm"] = "Int"
+		return boolT("(> " + v.T + " " + e.g.stateGet(e.old, "$wm") + ")")
 	case "slicecat":
 		vs := args()
+		if vs[0].T == "$nil" {
+			vs[0] = Val{T: w.zeroSort(vs[1].S), S: vs[1].S, G: vs[1].G}
+		}
+		e.g.slcCatAxioms(vs[0].S)
 		return Val{T: "(" + e.g.slcCatFn(vs[0].S) + " " + vs[0].T + " " + vs[1].T + ")", S: vs[0].S, G: vs[0].G}
 	}
 	if p, ok := w.preds[x.Fn]; ok {
@@ -813,4 +873,12 @@ func exprString(x Expr) string {
 		return "(" + exprString(x.C) + " ? " + exprString(x.A) + " : " + exprString(x.B) + ")"
 	}
 	return "?"
+}
+
+// mgetFn: map lookup on a mathematical map value (zero value for absent keys), as an
+// uninterpreted function with a defining axiom so that it can appear in triggers.
+func (g *Gen) mgetFn(ks, vs Sort) string {
+	n := "mget_" + sanitize(ks) + "_" + sanitize(vs)
+	g.extraDecl(n, "(declare-fun "+n+" ((MapV "+ks+" "+vs+") "+ks+") "+vs+")\n(assert (forall ((m (MapV "+ks+" "+vs+")) (k "+ks+")) (! (= ("+n+" m k) (ite (select (map_dom m) k) (select (map_val m) k) "+g.w.zeroSort(vs)+")) :pattern (("+n+" m k)))))")
+	return n
 }
